@@ -259,28 +259,44 @@ Lemma normalize_node subs h ch :
   Node h (norm_go (if h_nosub h then [] else subs) (normalize (if h_nosub h then [] else subs)) ch None).
 Proof. reflexivity. Qed.
 
-Section Payload.
+Section Words.
   Context (keep : Z -> bool).
-
-  Definition pay (t : tree) : list atom := words keep (flatten t).
-  Definition pays (l : list tree) : list atom := flat_map pay l.
-
   Lemma words_app a b : words keep (a ++ b) = words keep a ++ words keep b.
   Proof. unfold words. apply flat_map_app. Qed.
 
   Lemma words_args (args : list (list Z)) : words keep (map LArg args) = map AWord args.
   Proof. induction args as [|a args IH]; simpl; [reflexivity|]. f_equal. exact IH. Qed.
 
-  Lemma words_flat (l : list tree) : words keep (flat_map flatten l) = pays l.
+  (* the reading that shows no node is the words of the flattened tree *)
+  Lemma reading_words : forall t, reading (fun _ => false) keep t = words keep (flatten t).
   Proof.
-    induction l as [|t l IH]; simpl; [reflexivity|]. rewrite words_app, IH. reflexivity.
+    induction t as [h s|h ch IH] using tree_ind2; simpl; [rewrite app_nil_r; reflexivity|].
+    rewrite words_app, words_args. f_equal.
+    induction IH as [|c ch Hc _ IHch]; simpl; [reflexivity|]. rewrite words_app, Hc, IHch. reflexivity.
   Qed.
 
-  Lemma pay_node h ch : pay (Node h ch) = map AWord (h_args h) ++ pays ch.
-  Proof. unfold pay. simpl. rewrite words_app, words_args, words_flat. reflexivity. Qed.
+  Lemma reading_forest_words l : reading_forest (fun _ => false) keep l = words keep (flatten_forest l).
+  Proof.
+    unfold reading_forest, flatten_forest. induction l as [|t l IH]; simpl; [reflexivity|].
+    rewrite words_app, reading_words, IH. reflexivity.
+  Qed.
+End Words.
+
+Section Payload.
+  (* [vis]: which nodes are shown in the reading; the paragraph nodes that Macro.paragraphs creates are never shown (they are
+     not items of the stream) *)
+  Context (vis : head -> bool) (keep : Z -> bool) (Hvis : forall pn b, vis (par_head pn b) = false).
+
+  Definition pay (t : tree) : list atom := reading vis keep t.
+  Arguments pay : simpl never.
+  Definition pays (l : list tree) : list atom := flat_map pay l.
+  Definition hpay (h : head) : list atom := (if vis h then [ANode h] else []) ++ map AWord (h_args h).
+
+  Lemma pay_node h ch : pay (Node h ch) = hpay h ++ pays ch.
+  Proof. unfold pay, hpay, pays. simpl. rewrite <- app_assoc. reflexivity. Qed.
 
   Lemma pay_text h s : pay (Text h s) = map AChar (filter keep s).
-  Proof. unfold pay. simpl. rewrite app_nil_r. reflexivity. Qed.
+  Proof. reflexivity. Qed.
 
   Lemma pays_app a b : pays (a ++ b) = pays a ++ pays b.
   Proof. unfold pays. apply flat_map_app. Qed.
@@ -373,7 +389,7 @@ Section Payload.
   Proof. destruct t; simpl; [intro H; discriminate H|trivial]. Qed.
 
   Lemma pay_par pn b ch : pay (Node (par_head pn b) ch) = pays ch.
-  Proof. rewrite pay_node. reflexivity. Qed.
+  Proof. rewrite pay_node. unfold hpay. rewrite Hvis. reflexivity. Qed.
 
   Lemma add_child_pay p c : is_node p -> pay (add_child p c) = pay p ++ pay c.
   Proof.
@@ -838,18 +854,29 @@ Section Payload.
         eapply post_step; [exact Hs|exact Hl|apply post_refl|exact H].
     Qed.
 
-    (* M1 *)
-    Theorem digest_flatten : forall ts forest s',
+    (* M1, general form: the reading with any choice of visible nodes *)
+    Theorem digest_reading : forall ts forest s',
       parse_doc subs pn ts = Done (forest, s') ->
-      Forall (fun e => words keep (flatten (snd e)) = []) (s_log s') ->
-      words keep (flatten_forest forest) = words keep (flatten_forest ts).
+      Forall (fun e => reading vis keep (snd e) = []) (s_log s') ->
+      reading_forest vis keep forest = reading_forest vis keep ts.
     Proof.
       intros ts forest s' H Hlog. unfold parse_doc in H. apply parse_top_good in H.
       destruct H as [[_ H] He]. specialize (H Hlog). rewrite He in H. simpl in H.
-      unfold flatten_forest. rewrite !words_flat. rewrite app_nil_r in H. exact H.
+      rewrite app_nil_r in H. exact H.
     Qed.
   End Mutual.
 End Payload.
+
+(* M1: the words *)
+Theorem digest_flatten keep subs pn (Hn : neutral keep subs) : forall ts forest s',
+  parse_doc subs pn ts = Done (forest, s') ->
+  Forall (fun e => words keep (flatten (snd e)) = []) (s_log s') ->
+  words keep (flatten_forest forest) = words keep (flatten_forest ts).
+Proof.
+  intros ts forest s' H Hlog. rewrite <- !reading_forest_words.
+  apply (digest_reading (fun _ => false) keep (fun _ _ => eq_refl) subs pn Hn ts forest s' H).
+  eapply Forall_impl; [|exact Hlog]. intros e He. rewrite reading_words. exact He.
+Qed.
 
 (* ================================================================================================ *)
 (* M2: sectioning nodes contain paragraphs and strictly deeper sectioning nodes; no paragraph in a paragraph *)
@@ -1829,7 +1856,9 @@ Theorem paragraphs_preserves_order keep subs pn mm force h ch kept dr :
   Forall (fun t => words keep (flatten t) = []) dr ->
   words keep (flatten_forest kept) = words keep (flatten_forest ch).
 Proof.
-  intros Hn H Hdr. unfold flatten_forest. rewrite !words_flat. eapply paragraphs_pay; eassumption.
+  intros Hn H Hdr. rewrite <- !reading_forest_words.
+  eapply (paragraphs_pay (fun _ => false) keep (fun _ _ => eq_refl)); [exact Hn|exact H|].
+  eapply Forall_impl; [|exact Hdr]. intros t Ht. unfold pay. rewrite reading_words. exact Ht.
 Qed.
 
 (* ================================================================================================ *)
@@ -2257,3 +2286,194 @@ Definition ex_stream : list tree :=
 Definition ex_subs : list (list Z * list Z) :=
   [([96; 96], [8220]); ([39; 39], [8221]); ([34; 96], [8222]); ([34; 39], [8220]); ([96], [8216]); ([39], [8217]);
    ([45; 45; 45], [8212]); ([45; 45], [8211])].
+
+(* the standard choice of visible nodes never shows a created paragraph node *)
+Lemma vis_std_par pn b : vis_std (par_head pn b) = false.
+Proof. destruct b; reflexivity. Qed.
+
+(* ================================================================================================ *)
+(* Well-nested input is parsed into exactly its syntax tree                                           *)
+(* ================================================================================================ *)
+
+Lemma ast_ind2 (P : ast -> Prop) :
+  (forall h s, P (AText h s)) -> (forall h pre, P (ALeaf h pre)) ->
+  (forall h he body, Forall P body -> P (AEnv h he body)) -> forall a, P a.
+Proof.
+  intros HT HL HE. fix IH 1. intros [h s|h pre|h he body]; [apply HT|apply HL|apply HE].
+  induction body as [|b body IHb]; constructor; [apply IH|exact IHb].
+Qed.
+
+Definition St (rest : list tree) (mm : bool) (log ev : list (Z * tree)) : st := mkSt [] rest mm log ev.
+
+Arguments St : simpl never.
+
+Lemma next_St t r mm log ev : next (St (t :: r) mm log ev) = Some (t, St r (h_mm (hd_of t)) log ev).
+Proof. reflexivity. Qed.
+
+Definition allend (log : list (Z * tree)) : Prop := Forall (fun e => fst e = R_END) log.
+
+Lemma print_head a : exists t0 r0, print a = t0 :: r0 /\ hd_of t0 = hd_of (den a) /\ is_elem t0 = is_elem (den a) /\
+                                     level t0 = level (den a) /\ depth t0 = depth (den a).
+Proof. destruct a as [h s|h pre|h he body]; simpl; eexists; eexists; repeat split. Qed.
+
+Section NF.
+  Context (subs : list (list Z * list Z)) (pn : Z).
+
+  Lemma env_loop_S f h ch dp s :
+    env_loop subs pn (S f) h ch dp s =
+    match next s with
+    | None => Done (ch, dp, s)
+    | Some (t, s1) =>
+        if level t =? PAR_LEVEL then env_loop subs pn f h (ch ++ [t]) true s1
+        else if level t <? h_level h then Done (ch, dp, push t s1)
+        else if is_elem t && (h_mode (hd_of t) =? 2) && (h_typ (hd_of t) =? h_typ h) then Done (ch, dp, logd R_END t s1)
+        else
+          match (if is_elem t then digest subs pn f t s1 else Done (t, s1)) with
+          | Done (t', s2) =>
+              if (DOC_LEVEL <? h_level h) && (depth t' <? h_depth h)
+              then Done (ch, dp, push t' (ev_if (low (level t')) E_REPUSH t' s2))
+              else env_loop subs pn f h (ch ++ [t']) dp s2
+          | OutOfFuel => OutOfFuel
+          | Crashed k => Crashed k
+          end
+    end.
+  Proof. reflexivity. Qed.
+
+  Lemma digest_S_env f h ch s : h_kind h = KEnv -> digest subs pn (S f) (Node h ch) s = digest_env subs pn f h ch s.
+  Proof. intro H. simpl. rewrite H. reflexivity. Qed.
+  Lemma digest_S_leaf f h ch s : h_kind h = KLeaf \/ h_kind h = KText -> digest subs pn (S f) (Node h ch) s = Done (Node h ch, s).
+  Proof. intros [H|H]; simpl; rewrite H; reflexivity. Qed.
+  Lemma digest_env_S f h ch s : (h_mode h =? 2) = false ->
+    digest_env subs pn (S f) h ch s =
+    match env_loop subs pn f h ch (h_force h) s with
+    | Done (ch', dopars, s1) => if dopars then Done (do_paragraphs subs pn true h ch' s1) else Done (Node h ch', s1)
+    | OutOfFuel => OutOfFuel
+    | Crashed k => Crashed k
+    end.
+  Proof. intro H. simpl. rewrite H. reflexivity. Qed.
+  Lemma parse_top_S f out s :
+    parse_top subs pn (S f) out s =
+    match next s with
+    | None => Done (out, s)
+    | Some (t, s1) =>
+        match (if is_elem t then digest subs pn f t s1 else Done (t, s1)) with
+        | Done (t', s2) => parse_top subs pn f (out ++ [t']) s2
+        | OutOfFuel => OutOfFuel
+        | Crashed k => Crashed k
+        end
+    end.
+  Proof. reflexivity. Qed.
+
+  Definition Dst (a : ast) : Prop :=
+    ok a -> forall f r mm log ev, (2 * length (print a) <= f)%nat -> allend log ->
+    match print a with
+    | [] => True
+    | t0 :: r0 =>
+        exists mm' log',
+          (if is_elem t0 then digest subs pn f t0 (St (r0 ++ r) mm log ev) else Done (t0, St (r0 ++ r) mm log ev))
+          = Done (den a, St r mm' log' ev) /\ allend log'
+    end.
+
+  Lemma nf_loop h he : h_mode he = 2 -> h_typ he = h_typ h -> h_level he <> PAR_LEVEL -> h_level h <= h_level he ->
+    forall body, Forall Dst body -> oks ok (fits h) body ->
+    forall f ch0 r mm log ev, (2 * length (flat_map print body) + 1 <= f)%nat -> allend log ->
+    exists mm' log',
+      env_loop subs pn f h ch0 false (St (flat_map print body ++ Node he [] :: r) mm log ev)
+      = Done (ch0 ++ map den body, false, St r mm' log' ev) /\ allend log'.
+  Proof.
+    intros Hm Ht Hlp Hle. induction body as [|b body IHb]; intros HD Hok f ch0 r mm log ev Hf Hlog.
+    - destruct f as [|f]; [simpl in Hf; lia|]. cbn [flat_map app map]. rewrite env_loop_S, next_St.
+      assert (E1 : (level (Node he []) =? PAR_LEVEL) = false) by (apply Z.eqb_neq; exact Hlp).
+      assert (E2 : (level (Node he []) <? h_level h) = false) by (apply Z.ltb_ge; exact Hle).
+      rewrite E1, E2. cbn [is_elem hd_of andb]. rewrite Hm, Ht, !Z.eqb_refl. cbn [andb].
+      eexists. eexists. split; [rewrite app_nil_r; reflexivity|]. constructor; [reflexivity|exact Hlog].
+    - inversion HD as [|? ? HDb HDbody]; subst. destruct Hok as (Hokb & Hfit & Hokbody).
+      cbn [flat_map map]. rewrite <- app_assoc.
+      destruct (print_head b) as (t0 & r0 & Ep & Ehd & Eel & Elv & Edp).
+      unfold Dst in HDb. rewrite Ep in HDb. rewrite Ep. cbn [app].
+      cbn [flat_map] in Hf. rewrite app_length in Hf. rewrite Ep in Hf. cbn [length] in Hf.
+      destruct f as [|f]; [lia|]. rewrite env_loop_S, next_St.
+      destruct Hfit as (F1 & F2 & F3 & F4).
+      assert (E1 : (level t0 =? PAR_LEVEL) = false) by (apply Z.eqb_neq; rewrite Elv; exact F1).
+      assert (E2 : (level t0 <? h_level h) = false) by (apply Z.ltb_ge; rewrite Elv; exact F2).
+      rewrite E1, E2.
+      assert (E3 : is_elem t0 && (h_mode (hd_of t0) =? 2) && (h_typ (hd_of t0) =? h_typ h) = false).
+      { rewrite Eel, Ehd. destruct (is_elem (den b)) eqn:Ee; [|reflexivity]. cbn [andb].
+        destruct (h_mode (hd_of (den b)) =? 2) eqn:Em; [|reflexivity]. cbn [andb].
+        apply Z.eqb_eq in Em. apply Z.eqb_neq. apply F3; [reflexivity|exact Em]. }
+      rewrite E3.
+      destruct (HDb Hokb f (flat_map print body ++ Node he [] :: r) (h_mm (hd_of t0)) log ev) as (mm1 & log1 & Hd & Hl1);
+        [cbn [length]; lia|exact Hlog|].
+      rewrite Hd.
+      assert (E4 : (DOC_LEVEL <? h_level h) && (depth (den b) <? h_depth h) = false).
+      { destruct (DOC_LEVEL <? h_level h) eqn:Ed; [|reflexivity]. cbn [andb]. apply Z.ltb_lt in Ed. apply Z.ltb_ge. apply F4. exact Ed. }
+      assert (Edd : depth (den b) = depth_of (den b)) by reflexivity.
+      rewrite E4.
+      destruct (IHb HDbody Hokbody f (ch0 ++ [den b]) r mm1 log1 ev) as (mm2 & log2 & Hl & Hl2); [lia|exact Hl1|].
+      rewrite Hl. eexists. eexists. split; [rewrite <- app_assoc; reflexivity|exact Hl2].
+  Qed.
+
+  Lemma nf_digest : forall a, Dst a.
+  Proof.
+    induction a as [h s|h pre|h he body IH] using ast_ind2; unfold Dst; intros Hok f r mm log ev Hf Hlog.
+    - cbn [print is_elem app den]. eexists. eexists. split; [reflexivity|exact Hlog].
+    - cbn [print is_elem app den]. cbn [print length] in Hf. destruct f as [|f]; [lia|].
+      simpl in Hok. rewrite digest_S_leaf by exact Hok. eexists. eexists. split; [reflexivity|exact Hlog].
+    - cbn [print is_elem den]. cbn [print length] in Hf. rewrite app_length in Hf. cbn [length] in Hf.
+      cbn [ok] in Hok. destruct Hok as (Hk & Hm & Hfo & Hme & Hte & Hlp & Hle & Hoks).
+      destruct f as [|f]; [lia|]. rewrite digest_S_env by exact Hk.
+      destruct f as [|f]; [lia|].
+      assert (Em : (h_mode h =? 2) = false) by (apply Z.eqb_neq; exact Hm). rewrite digest_env_S by exact Em. rewrite Hfo.
+      rewrite <- app_assoc. cbn [app].
+      destruct (nf_loop h he Hme Hte Hlp Hle body IH Hoks f [] r mm log ev) as (mm1 & log1 & Hl & Hl1); [lia|exact Hlog|].
+      rewrite Hl. eexists. eexists. split; [reflexivity|exact Hl1].
+  Qed.
+
+  Lemma nf_top : forall l, oks ok (fun _ => True) l ->
+    forall f out mm log ev, (2 * length (flat_map print l) + 1 <= f)%nat -> allend log ->
+    exists mm' log', parse_top subs pn f out (St (flat_map print l) mm log ev) = Done (out ++ map den l, St [] mm' log' ev) /\ allend log'.
+  Proof.
+    induction l as [|b l IH]; intros Hok f out mm log ev Hf Hlog.
+    - destruct f as [|f]; [lia|]. cbn [flat_map map]. rewrite parse_top_S. change (next (St [] mm log ev)) with (@None (tree * st)).
+      eexists. eexists. split; [rewrite app_nil_r; reflexivity|exact Hlog].
+    - destruct Hok as (Hokb & _ & Hokl). cbn [flat_map map].
+      destruct (print_head b) as (t0 & r0 & Ep & Ehd & Eel & Elv & Edp).
+      pose proof (nf_digest b) as HDb. unfold Dst in HDb. rewrite Ep in HDb. rewrite Ep. cbn [app].
+      cbn [flat_map] in Hf. rewrite app_length, Ep in Hf. cbn [length] in Hf.
+      destruct f as [|f]; [lia|]. rewrite parse_top_S, next_St.
+      destruct (HDb Hokb f (flat_map print l) (h_mm (hd_of t0)) log ev) as (mm1 & log1 & Hd & Hl1);
+        [cbn [length]; lia|exact Hlog|].
+      rewrite Hd.
+      destruct (IH Hokl f (out ++ [den b]) mm1 log1 ev) as (mm2 & log2 & Hl & Hl2); [lia|exact Hl1|].
+      rewrite Hl. eexists. eexists. split; [rewrite <- app_assoc; reflexivity|exact Hl2].
+  Qed.
+
+  (* parsing the printed form of well-nested syntax trees gives back exactly those trees; nothing is pushed back, the only items
+     dropped are the \end markers, no sectioning event *)
+  Theorem nf_parse : forall l, oks ok (fun _ => True) l ->
+    exists s', parse_doc subs pn (flat_map print l) = Done (map den l, s') /\
+               s_buf s' = [] /\ s_rest s' = [] /\ s_ev s' = [] /\ Forall (fun e => fst e = R_END) (s_log s').
+  Proof.
+    intros l Hok. unfold parse_doc, init_st.
+    destruct (nf_top l Hok (fuel_for (flat_map print l)) [] false [] []) as (mm' & log' & H & Hl);
+      [unfold fuel_for; lia|constructor|].
+    change (mkSt [] (flat_map print l) false [] []) with (St (flat_map print l) false [] []).
+    rewrite H. eexists. split; [reflexivity|]. repeat split. exact Hl.
+  Qed.
+End NF.
+
+(* a concrete well-nested document for the non-vacuity example:
+   \documentclass{article}\begin{document}a\begin{quote}b\cmd{c}\end{quote}d\end{document}  *)
+Definition ex_nf : list ast :=
+  [ ALeaf (ex_head KLeaf 1 CHAR_LEVEL 1 0 20 []) [];
+    AEnv (ex_head KEnv 2 DOC_LEVEL 2 1 1 []) (ex_head KEnv 2 DOC_LEVEL 1 2 1 [])
+      [ AText (hd_of (ex_txt 97 2)) [97];
+        AEnv (ex_head KEnv 11 201 3 1 11 []) (ex_head KEnv 11 201 2 2 11 [])
+          [ AText (hd_of (ex_txt 98 3)) [98]; ALeaf (ex_head KLeaf 12 CHAR_LEVEL 3 0 12 []) [ex_txt 99 4] ];
+        AText (hd_of (ex_txt 100 2)) [100] ] ].
+
+Lemma ex_nf_ok : oks ok (fun _ => True) ex_nf.
+Proof.
+  cbn. unfold fits, level, depth_of, ex_head, ex_txt, hd_of, is_elem, DOC_LEVEL, PAR_LEVEL, CHAR_LEVEL; cbn.
+  repeat split; auto; try discriminate; try (intros; discriminate); try (intros; lia); try lia.
+Qed.
